@@ -25,6 +25,7 @@ mod conc_txm;
 mod conc_buf;
 mod conc_lpg;
 mod val;
+mod rdftx;
 
 fn main() {
     let args: Vec<String> = std::env::args().skip(1).collect();
@@ -51,6 +52,7 @@ fn main() {
         "exec" => exec::main(&opts),
         "front" => front::main(&opts),
         "sparql" => sparql::main(&opts),
+        "rdftx" => rdftx::main(&opts),
         "snapfault" => snap::faults(&opts),
         "q" => q::main(&opts),
         "qprobe" => q::probe(&opts),
